@@ -14,3 +14,5 @@ mod seq_gen;
 mod spsc_conc;
 #[cfg(kani)]
 mod locks;
+#[cfg(kani)]
+mod spsc_async;
